@@ -57,6 +57,34 @@ HTTP_TIERS = {
 }
 
 
+def apalache_inductive():
+    """IndInv of spec/apalache/XsStoreInd.tla (partitions agree, registry is a function of the frames) is
+    inductive: unbounded histories over a 4-id universe. Cached per file content."""
+    import hashlib
+    d = os.path.join(SPEC, "apalache")
+    key = hashlib.sha256(open(os.path.join(d, "XsStoreInd.tla"), "rb").read()).hexdigest()[:16]
+    cf = os.path.join(os.path.dirname(SPEC), ".cache", f"apalache-{key}.json")
+    if os.path.exists(cf):
+        return json.load(open(cf))
+    out = scratch("apalache")
+    t0 = time.time()
+    try:
+        r = []
+        for init, length in (("Init", 0), ("IndInit", 1)):
+            p = sh(f"apalache-mc check --cinit=ConstInit --init={init} --inv=IndInv --length={length} "
+                   f"--out-dir={out} XsStoreInd.tla", cwd=d, timeout=1800, check=False)
+            ok = "The outcome is: NoError" in p.stdout
+            r.append({"init": init, "length": length, "ok": ok})
+            if not ok:
+                raise ToolError("Apalache: IndInv of XsStoreInd is not inductive (model problem):\n" + p.stdout[-2000:])
+    finally:
+        shutil.rmtree(out, ignore_errors=True)
+    res = {"module": "apalache/XsStoreInd.tla", "obligations": r, "wall_s": round(time.time() - t0, 1)}
+    json.dump(res, open(cf, "w"))
+    log(f"apalache: IndInv inductive ({res['wall_s']}s)")
+    return res
+
+
 def run(tier, seed, regress=True, http=False):
     cfg = (HTTP_TIERS if http else TIERS)[tier]
     t0 = time.time()
@@ -67,6 +95,8 @@ def run(tier, seed, regress=True, http=False):
     # key layout of the topic index (pure: ASSUMEs over all short byte strings)
     mcs.append(model_check("XsKeys.tla", "MC_keys.cfg", workers=2))
     res["mc"] = mcs
+    if tier == "thorough" and not http:
+        res["inductive"] = apalache_inductive()
     # (2) behaviours: TLC-generated + seeded random + committed regressions
     d = scratch(gname)
     try:
